@@ -90,6 +90,7 @@ pub fn ref_plan(op: &Op, env: &Option<String>) -> Plan {
         alloc_yield_mean: 0,
         clock_step_ns: 0,
         block_yield_mean: 0,
+            atomic_yield_mean: 0,
     }
 }
 
